@@ -131,6 +131,7 @@ type Scenario struct {
 	PipeBreak int          `json:"pipe_break,omitempty"` // ship: the pipe breaks after this many bytes (0: never)
 	Corrupt   []Corruption `json:"corrupt,omitempty"`
 	LinkRoots bool         `json:"link_roots,omitempty"` // post: the bundle is also re-opened, and the archive extracted, by way of a symlink to the directory
+	TargetVia bool         `json:"target_via,omitempty"` // the builder's target directory is named by way of a symlinked path component (/w/tl -> .)
 	OtherPack bool         `json:"other_pack,omitempty"` // a further task packs another tree with its own rule file (slug.Pack) while the build runs: both consume the same ignore-rule machinery
 	CloseTask bool         `json:"close_task,omitempty"` // Close is issued by task 0 after its Adds instead of after all tasks
 	Tapes     [][]int      `json:"tapes,omitempty"`      // pinned schedule tapes, one per scheduler in creation order (variants, then ship)
